@@ -3,6 +3,7 @@ The writer side: `csv_core::quote`, `Writer::field`, `Writer::finish` and vibrat
 `quote_csv_cell`; and the reader/writer round trip `parse_csv_row (quote_csv_cell x) = [x]`.
 -/
 import Vibrato.Proofs.LexCsvRows
+import Vibrato.Proofs.CsvRowTotal
 
 namespace Vibrato.Csv
 
@@ -373,15 +374,17 @@ theorem cellOfValue_render_ne (x : List UInt8) : (cellOfValue x).render ≠ [] :
     · simp
     · rename_i h; simpa [List.isEmpty_iff] using h
 
-/-- `parse_csv_row` on `c_1 , … , c_k , last` where `last` is not empty in the file: the
-unquoted values. -/
-theorem rowLoop_cells (fuel : Nat) (rdr : Reader) (hfs : FieldStart rdr.state)
+/-- `parse_csv_row` (buffer of `cap` bytes) on `c_1 , … , c_k , last` where `last` is not
+empty in the file: the unquoted values.  Every cell but the last must be shorter than the
+buffer; for the last one it suffices that the rendered cell fits. -/
+theorem rowLoop_cells (cap fuel : Nat) (rdr : Reader) (hfs : FieldStart rdr.state)
     (cs : List Cell) (last : Cell) (acc : List (List UInt8))
     (hnb : NoBom rdr (featInitBytes cs ++ last.render))
-    (hcs : ∀ c ∈ cs, cellOk c ∧ validUtf8 c.value = true)
-    (hlast : cellOk last ∧ validUtf8 last.value = true) (hne : last.render ≠ [])
+    (hcs : ∀ c ∈ cs, c.wf = true ∧ c.value.length < cap ∧ validUtf8 c.value = true)
+    (hlast : last.wf = true ∧ (last.value.length < cap ∨ last.render.length ≤ cap) ∧
+      validUtf8 last.value = true) (hne : last.render ≠ [])
     (hf : cs.length < fuel) :
-    rowLoop fuel rdr (featInitBytes cs ++ last.render) acc =
+    rowLoop cap fuel rdr (featInitBytes cs ++ last.render) acc =
       some (.ok (acc ++ cs.map Cell.value ++ [last.value])) := by
   induction cs generalizing fuel rdr acc with
   | nil =>
@@ -390,18 +393,24 @@ theorem rowLoop_cells (fuel : Nat) (rdr : Reader) (hfs : FieldStart rdr.state)
     | succ n =>
       simp only [featInitBytes, List.flatMap_nil, List.nil_append] at hnb ⊢
       simp only [rowLoop]
-      rw [readField_cell_eof hfs last hlast.1.1 hne hlast.1.2 hnb]
-      simp [hlast.2]
+      have hrf : readField rdr last.render cap =
+          (.inputEmpty, last.render.length, last.value,
+            { state := last.after rdr.state, hasRead := true }) := by
+        rcases hlast.2.1 with h | h
+        · exact readField_cell_eof hfs last hlast.1 hne h hnb
+        · exact readField_cell_eof_le hfs last hlast.1 hne h hnb
+      rw [hrf]
+      simp [hlast.2.2]
   | cons c cs ih =>
     cases fuel with
     | zero => simp at hf
     | succ n =>
       have hb : featInitBytes (c :: cs) ++ last.render =
           c.render ++ 44 :: (featInitBytes cs ++ last.render) := by simp [featInitBytes]
-      obtain ⟨hc, hcu⟩ := hcs c (by simp)
+      obtain ⟨hc, hcl, hcu⟩ := hcs c (by simp)
       rw [hb] at hnb ⊢
       simp only [rowLoop]
-      rw [readField_cell_delim hfs c hc.1 _ hc.2 hnb]
+      rw [readField_cell_delim hfs c hc _ hcl hnb]
       simp only [hcu, if_true, drop_cell']
       rw [ih n ⟨.endFieldDelim, true⟩ (Or.inr (Or.inl rfl)) (acc ++ [c.value]) (Or.inl rfl)
         (fun x hx => hcs x (by simp [hx])) (by simp only [List.length_cons] at hf; omega)]
@@ -416,32 +425,81 @@ theorem featInitBytes_length_ge (cs : List Cell) : cs.length ≤ (featInitBytes 
     rw [this]
     simp; omega
 
-/-- **parse_csv_row on a written row.**  A row `c_1,…,c_k,last` of well-formed cells
-(values valid UTF-8 and shorter than 4096 bytes, `last` not empty in the file, no BOM at
-the start) parses into the unquoted values. -/
+/-- A cell that is followed by its comma inside `featInitBytes cs` is strictly shorter than
+the whole. -/
+theorem render_lt_featInitBytes {cs : List Cell} {c : Cell} (h : c ∈ cs) :
+    c.render.length < (featInitBytes cs).length := by
+  induction cs with
+  | nil => simp at h
+  | cons d cs ih =>
+    have e : featInitBytes (d :: cs) = d.render ++ 44 :: featInitBytes cs := by
+      simp [featInitBytes]
+    rw [e]
+    rcases List.mem_cons.mp h with rfl | h
+    · simp
+    · have := ih h
+      simp; omega
+
+/-- **parse_csv_row on a written row (pinned tree, 4096 byte buffer).**  A row
+`c_1,…,c_k,last` of well-formed cells (values valid UTF-8 and shorter than 4096 bytes,
+`last` not empty in the file, no BOM at the start) parses into the unquoted values. -/
 theorem parse_csv_row_cells (cs : List Cell) (last : Cell)
     (hnb : ¬ (bom <+: featInitBytes cs ++ last.render))
     (hcs : ∀ c ∈ cs, cellOk c ∧ validUtf8 c.value = true)
     (hlast : cellOk last ∧ validUtf8 last.value = true) (hne : last.render ≠ []) :
-    parseCsvRowBytes (featInitBytes cs ++ last.render) =
+    parseCsvRowBytes false (featInitBytes cs ++ last.render) =
       .ok (cs.map Cell.value ++ [last.value]) := by
   unfold parseCsvRowBytes
   have hlen := featInitBytes_length_ge cs
-  rw [rowLoop_cells _ Reader.new (Or.inr (Or.inr (Or.inl rfl))) cs last [] (Or.inr hnb) hcs
-    hlast hne (by simp only [parseFuel, List.length_append]; omega)]
+  rw [rowLoop_cells _ _ Reader.new (Or.inr (Or.inr (Or.inl rfl))) cs last [] (Or.inr hnb)
+    (fun c hc => ⟨(hcs c hc).1.1, by simpa [rowCap] using (hcs c hc).1.2, (hcs c hc).2⟩)
+    ⟨hlast.1.1, Or.inl (by simpa [rowCap] using hlast.1.2), hlast.2⟩ hne
+    (by simp only [parseFuel, List.length_append]; omega)]
   simp
 
-/-- **unquote_quote.**  What `quote_csv_cell` writes for `x` is read back by `parse_csv_row`
-as the single cell `x`, for every valid UTF-8 `x` shorter than 4096 bytes that does not
-start with a BOM. -/
+/-- **parse_csv_row on a written row (repaired tree, F18).**  No length restriction: a row
+`c_1,…,c_k,last` of well-formed cells with valid UTF-8 values, `last` not empty in the file,
+no BOM at the start, parses into the unquoted values. -/
+theorem parse_csv_row_cells_fixed (cs : List Cell) (last : Cell)
+    (hnb : ¬ (bom <+: featInitBytes cs ++ last.render))
+    (hcs : ∀ c ∈ cs, c.wf = true ∧ validUtf8 c.value = true)
+    (hlast : last.wf = true ∧ validUtf8 last.value = true) (hne : last.render ≠ []) :
+    parseCsvRowBytes true (featInitBytes cs ++ last.render) =
+      .ok (cs.map Cell.value ++ [last.value]) := by
+  unfold parseCsvRowBytes
+  have hlen := featInitBytes_length_ge cs
+  rw [rowLoop_cells _ _ Reader.new (Or.inr (Or.inr (Or.inl rfl))) cs last [] (Or.inr hnb)
+    (fun c hc => ⟨(hcs c hc).1, by
+      have h1 := Cell.value_le_render c
+      have h2 := render_lt_featInitBytes hc
+      simp only [rowCap, if_true, List.length_append]; omega, (hcs c hc).2⟩)
+    ⟨hlast.1, Or.inr (by simp [rowCap]), hlast.2⟩ hne
+    (by simp only [parseFuel, List.length_append]; omega)]
+  simp
+
+/-- **unquote_quote (pinned tree).**  What `quote_csv_cell` writes for `x` is read back by
+`parse_csv_row` as the single cell `x`, for every valid UTF-8 `x` shorter than 4096 bytes
+that does not start with a BOM. -/
 theorem unquote_quote (x : List UInt8) (hu : validUtf8 x = true) (hlen : x.length < 4096)
     (hbom : ¬ (bom <+: quoteCell x)) :
-    parseCsvRowBytes (quoteCell x) = .ok [x] := by
+    parseCsvRowBytes false (quoteCell x) = .ok [x] := by
   have := parse_csv_row_cells [] (cellOfValue x)
     (by simpa [featInitBytes, cellOfValue_render] using hbom)
     (by simp)
     ⟨⟨cellOfValue_wf x, by rw [cellOfValue_value]; exact hlen⟩,
       by rw [cellOfValue_value]; exact hu⟩
+    (cellOfValue_render_ne x)
+  simpa [featInitBytes, cellOfValue_render, cellOfValue_value] using this
+
+/-- **unquote_quote (repaired tree, F18).**  For every valid UTF-8 `x` of any length that
+does not start with a BOM. -/
+theorem unquote_quote_fixed (x : List UInt8) (hu : validUtf8 x = true)
+    (hbom : ¬ (bom <+: quoteCell x)) :
+    parseCsvRowBytes true (quoteCell x) = .ok [x] := by
+  have := parse_csv_row_cells_fixed [] (cellOfValue x)
+    (by simpa [featInitBytes, cellOfValue_render] using hbom)
+    (by simp)
+    ⟨cellOfValue_wf x, by rw [cellOfValue_value]; exact hu⟩
     (cellOfValue_render_ne x)
   simpa [featInitBytes, cellOfValue_render, cellOfValue_value] using this
 
